@@ -100,7 +100,7 @@ def _parse_xml_string(xml_string, parser, charset=None):
     else:
         string = ''.join(chain( (chunk,), xml_string ))
 
-    if charset:
+    if charset and isinstance(string, six.binary_type):
         try:
             string = string.decode(charset)
         except (UnicodeError, LookupError) as e:
